@@ -1024,7 +1024,11 @@ class Ex:
         if key in self._globals:
             g = self._globals[key]
             return g if not callable(g) else VBound(obj, attr)
-        return VBound(obj, attr)
+        # neither a field the spec gave a value, nor a method / property / constant of the class, nor a name the spec knows: it
+        # may still be CALLED (a method inherited from outside the package, resolved by the call site) - but it has no value
+        vb = VBound(obj, attr)
+        vb.unknown = True
+        return vb
 
     def ex_Tuple(self, e):
         return VTuple([self.ev(x) for x in e.elts])
@@ -1368,6 +1372,9 @@ class Ex:
         if isinstance(v, VDict):
             x = self.fresh_term(v.kty.sort, "w")
             return z3.Exists([x], v.dom[x])
+        if isinstance(v, VBound) and getattr(v, "unknown", False):
+            # e.g. an instance attribute introduced by a change that the sidecar gives no value: its truth is not known
+            raise Unsupported(f"truth of the unknown attribute `{v.name}` (the spec gives this field no value)")
         if isinstance(v, (VObj, VFunc, VClass, VBound, VGlobal, VTuple)):
             return True if not isinstance(v, VTuple) else len(v.items) > 0
         if isinstance(v, VOpaque):
